@@ -159,7 +159,7 @@ class EfficientBackend(object):
 
         for mp in mp_list:
             a_list_raw = self._chunk_list(mp, self.min_chunk_size, self.optimal_chunk_size)
-            a_list = [ft.reduce(np.kron, chunk[:]) for chunk in a_list_raw]
+            a_list = [np.atleast_2d(ft.reduce(np.kron, chunk[:])) for chunk in a_list_raw]
             psi = self._opt_einsum_many_matrices(a_list, psi)
         return psi
 
